@@ -23,6 +23,7 @@
     * `energy_eq_dense_hamiltonian`, `energy_eq_denseEnergy`, `energy_after_updates`
                                  `MPO.expect(H-MPO, ψ) = Σ_{σ,τ} conj(ψ_σ)·⟨σ|H_dense|τ⟩·ψ_τ` for every valid Tensor-model
                                  MPS (any bond dimensions, not normalised, not canonical) — `K` a commutative star ring;
+    * `energy_of_scaled_state`   `fill_results` hands `(1/‖ψ‖)·ψ` to the callbacks: the energy of `λ·ψ` is `conj(λ)·λ ×` that of `ψ`;
     * `padded_energy_eq_dense`   dark-atom padding (`extended_mps_factors` / `extended_mpo_factors`, C25): the energy
                                  of the padded pair is the dense form of the REDUCED Hamiltonian on the reduced state;
     * over `ℂ`: `energy_eq_inner` (the reported number is `⟨ψ, Hψ⟩` in `EuclideanSpace ℂ (Fin N → Fin d)`),
@@ -174,6 +175,34 @@ theorem energy_after_updates (P : Params K (Matrix (Fin d) (Fin d) K)) (hU : ∀
           star (amp As (strOf σ)) * Hmat (withH P h) N hN σ τ * amp As (strOf τ)) := by
   rw [EmuVerif.Props.C05.updateSeq_eq_rebuild P (hs ++ [h]) (by omega), List.getLastD_concat]
   exact energy_eq_dense_hamiltonian (withH P h) hU hN hP As hA hlen
+
+
+/-! ### `fill_results`: the state handed to the callbacks is `(1/‖ψ‖)·ψ` -/
+
+theorem scaleAux_length (c : K) (which i : ℕ) (fs : List (Site K)) :
+    (scaleAux c which i fs).length = fs.length := by
+  induction fs generalizing i with
+  | nil => rfl
+  | cons A fs ih => simp [scaleAux, ih]
+
+/-- **the energy of `λ·ψ`** (`__rmul__` scales one factor) is `conj(λ)·λ` times the dense form of `ψ`: with
+`conj(λ)·λ·⟨ψ|ψ⟩ = 1` (`normalised_of_inverse_norm` of C13Mps) the reported energy is `⟨ψ|H_dense|ψ⟩ / ⟨ψ|ψ⟩` of the
+back-end state. -/
+theorem energy_of_scaled_state (P : Params K (Matrix (Fin d) (Fin d) K)) (hU : ∀ i j, P.U i j = P.U j i)
+    (hN : 2 ≤ N) (hP : P.N = N) (As : List (Site K)) (c : K) (which : ℕ) (hw : which < As.length)
+    (hA : validChain d (scaleFactors c which As) = true) (hlen : As.length = N) :
+    expect (scaleFactors c which As) (hamMPO d P)
+      = some (star c * c * ∑ σ : Cfg N d, ∑ τ : Cfg N d,
+          star (amp As (strOf σ)) * Hmat P N hN σ τ * amp As (strOf τ)) := by
+  rw [energy_eq_dense_hamiltonian P hU hN hP _ hA (by rw [scaleFactors, scaleAux_length, hlen])]
+  congr 1
+  rw [Finset.mul_sum]
+  refine Finset.sum_congr rfl (fun σ _ => ?_)
+  rw [Finset.mul_sum]
+  refine Finset.sum_congr rfl (fun τ _ => ?_)
+  rw [EmuVerif.Props.C11.scale_factors_amp c which As hw, EmuVerif.Props.C11.scale_factors_amp c which As hw,
+    star_mul']
+  ring
 
 /-! ### dark-atom padding -/
 
